@@ -1,5 +1,6 @@
 import Juniper.Model.Stream
 import Juniper.Spec.Seq
+import Juniper.Proofs.Skeleton
 /-!
 # Denotation of stream machines under faults (framework for C07/C08)
 
